@@ -515,6 +515,19 @@ impl Check for SwCheck {
             if self.mode == SMode::Totality && unit == gen_units {
                 self.nesting_growth(ctx);
             }
+            if unit == gen_units + 1 {
+                // include statements in every place a statement can stand (defset, let, foreach, if, multiclass
+                // bodies), naming files that are longer than the including one
+                let pad = "// padding so that offsets in this file exceed the length of the including file\n".repeat(6);
+                let inc_a = format!("{}def first : C;\ndef second : C {{ int g = 1; }}\n", pad);
+                let inc_b = format!("{}class InB<int q> {{ int h = q; }}\ndef viaB : InB<3>;\nmulticlass MB<int m> {{ def _x : InB<m>; }}\n", pad);
+                let main = "class C { int f = 1; }\ndefset list<C> All = {\n  include \"inc_a.td\"\n}\nlet f = 2 in {\n  include \"inc_a.td\"\n}\nforeach i = [1, 2] in {\n  include \"inc_b.td\"\n}\nif true then {\n  include \"inc_b.td\"\n}\nmulticlass M {\n  include \"inc_a.td\"\n}\ndefm z : M;\ndef last : C;\n";
+                let w = Workspace { files: vec![("/ws/main.td".into(), main.to_string()), ("/ws/inc_a.td".into(), inc_a), ("/ws/inc_b.td".into(), inc_b)], root: 0 };
+                ctx.feature("nested_include_workspaces");
+                for (w2, state) in derived_states(&w, &mut rng, 40, ctx.tier.pick(30, 200)) {
+                    self.check_state(&w2, if state == "base" { "stress" } else { state }, ctx);
+                }
+            }
             for base in [single, two] {
                 let pieces = texts::split_pieces(s);
                 for (w, state) in derived_states(&base, &mut rng, pieces.len(), ctx.tier.pick(30, 200)) {
@@ -558,7 +571,7 @@ impl Check for SwCheck {
     }
     fn floors(&self, tier: Tier) -> Vec<(&'static str, u64)> {
         let n = tier.pick(250, 9000);
-        let mut v = vec![("base_workspaces", n), ("base_with_includes", n / 4), ("state:prefix", n * 10), ("state:edit-delete", n), ("state:edit-replace", n), ("state:lead-in-char", n * 5), ("stress_patterns", STRESS.len() as u64), ("corpus_files", 39), ("base:non-ascii-adjacent", n / 6)];
+        let mut v = vec![("base_workspaces", n), ("base_with_includes", n / 4), ("state:prefix", n * 10), ("state:edit-delete", n), ("state:edit-replace", n), ("state:lead-in-char", n * 5), ("stress_patterns", STRESS.len() as u64), ("nested_include_workspaces", 1), ("corpus_files", 39), ("base:non-ascii-adjacent", n / 6)];
         match self.mode {
             SMode::Coherence => v.extend([("goto_answers", n * 100), ("reference_roundtrips", n * 20)]),
             SMode::Totality => v.push(("nesting_growth_shapes", 16)),
